@@ -130,9 +130,12 @@ proofs/BencodeProofs.vos proofs/BencodeProofs.vok proofs/BencodeProofs.required_
 proofs/KrpcProofs.vo proofs/KrpcProofs.glob proofs/KrpcProofs.v.beautified proofs/KrpcProofs.required_vo: proofs/KrpcProofs.v model/Bytes.vo model/Id.vo model/Server.vo model/Bencode.vo model/Krpc.vo model/Check10.vo proofs/Sweep.vo proofs/IdProofs.vo proofs/ClosestProofs.vo proofs/RTableProofs.vo proofs/TokenProofs.vo
 proofs/KrpcProofs.vio: proofs/KrpcProofs.v model/Bytes.vio model/Id.vio model/Server.vio model/Bencode.vio model/Krpc.vio model/Check10.vio proofs/Sweep.vio proofs/IdProofs.vio proofs/ClosestProofs.vio proofs/RTableProofs.vio proofs/TokenProofs.vio
 proofs/KrpcProofs.vos proofs/KrpcProofs.vok proofs/KrpcProofs.required_vos: proofs/KrpcProofs.v model/Bytes.vos model/Id.vos model/Server.vos model/Bencode.vos model/Krpc.vos model/Check10.vos proofs/Sweep.vos proofs/IdProofs.vos proofs/ClosestProofs.vos proofs/RTableProofs.vos proofs/TokenProofs.vos
-properties/C10.vo properties/C10.glob properties/C10.v.beautified properties/C10.required_vo: properties/C10.v model/Bytes.vo model/Id.vo model/Server.vo model/Bencode.vo model/Krpc.vo model/Check10.vo proofs/BencodeProofs.vo proofs/KrpcProofs.vo
-properties/C10.vio: properties/C10.v model/Bytes.vio model/Id.vio model/Server.vio model/Bencode.vio model/Krpc.vio model/Check10.vio proofs/BencodeProofs.vio proofs/KrpcProofs.vio
-properties/C10.vos properties/C10.vok properties/C10.required_vos: properties/C10.v model/Bytes.vos model/Id.vos model/Server.vos model/Bencode.vos model/Krpc.vos model/Check10.vos proofs/BencodeProofs.vos proofs/KrpcProofs.vos
+proofs/RoundTrip.vo proofs/RoundTrip.glob proofs/RoundTrip.v.beautified proofs/RoundTrip.required_vo: proofs/RoundTrip.v model/Bytes.vo model/Id.vo model/Server.vo model/Bencode.vo model/Krpc.vo proofs/BencodeProofs.vo proofs/KrpcProofs.vo
+proofs/RoundTrip.vio: proofs/RoundTrip.v model/Bytes.vio model/Id.vio model/Server.vio model/Bencode.vio model/Krpc.vio proofs/BencodeProofs.vio proofs/KrpcProofs.vio
+proofs/RoundTrip.vos proofs/RoundTrip.vok proofs/RoundTrip.required_vos: proofs/RoundTrip.v model/Bytes.vos model/Id.vos model/Server.vos model/Bencode.vos model/Krpc.vos proofs/BencodeProofs.vos proofs/KrpcProofs.vos
+properties/C10.vo properties/C10.glob properties/C10.v.beautified properties/C10.required_vo: properties/C10.v model/Bytes.vo model/Id.vo model/Server.vo model/Bencode.vo model/Krpc.vo model/Check10.vo proofs/BencodeProofs.vo proofs/KrpcProofs.vo proofs/RoundTrip.vo
+properties/C10.vio: properties/C10.v model/Bytes.vio model/Id.vio model/Server.vio model/Bencode.vio model/Krpc.vio model/Check10.vio proofs/BencodeProofs.vio proofs/KrpcProofs.vio proofs/RoundTrip.vio
+properties/C10.vos properties/C10.vok properties/C10.required_vos: properties/C10.v model/Bytes.vos model/Id.vos model/Server.vos model/Bencode.vos model/Krpc.vos model/Check10.vos proofs/BencodeProofs.vos proofs/KrpcProofs.vos proofs/RoundTrip.vos
 properties/C05.vo properties/C05.glob properties/C05.v.beautified properties/C05.required_vo: properties/C05.v model/Bytes.vo model/Id.vo model/Server.vo model/Bencode.vo model/Krpc.vo model/Check10.vo proofs/KrpcProofs.vo
 properties/C05.vio: properties/C05.v model/Bytes.vio model/Id.vio model/Server.vio model/Bencode.vio model/Krpc.vio model/Check10.vio proofs/KrpcProofs.vio
 properties/C05.vos properties/C05.vok properties/C05.required_vos: properties/C05.v model/Bytes.vos model/Id.vos model/Server.vos model/Bencode.vos model/Krpc.vos model/Check10.vos proofs/KrpcProofs.vos
